@@ -58,14 +58,14 @@ func applyEdits(src []byte, base int, edits []srcEdit) string {
 }
 
 type inliner struct {
-	p       *Prog
-	overlay map[string][]byte
-	src     map[string][]byte
-	pkgs    []*packages.Package
-	novel   map[*types.Func]*ast.FuncDecl
-	declPkg map[*types.Func]*packages.Package
-	counter int
-	notes   []inlineNote
+	p           *Prog
+	overlay     map[string][]byte
+	src         map[string][]byte
+	pkgs        []*packages.Package
+	novel       map[*types.Func]*ast.FuncDecl
+	declPkg     map[*types.Func]*packages.Package
+	counter     int
+	notes       []inlineNote
 	curPos      token.Pos // call site being expanded (scope for name resolution checks)
 	lastImports map[string]string
 	rejected    []string // expansions dropped because the package did not type-check with them
@@ -1700,148 +1700,148 @@ func (in *inliner) expand(pk *packages.Package, file *ast.File, s inlineSiteT) (
 					brk = "; break " + label
 				}
 				var txt string
-			switch s.form {
-			case "stmt":
-				switch {
-				case len(exprs) == 0:
-					txt = ""
-				case len(results) == 1 && nres > 1:
-					txt = strings.TrimSuffix(strings.Repeat("_, ", nres), ", ") + " = " + exprs[0]
-				default:
-					txt = strings.TrimSuffix(strings.Repeat("_, ", len(exprs)), ", ") + " = " + strings.Join(exprs, ", ")
-				}
-				if dq := deferredAt(dpos); dq != "" {
-					if txt != "" {
-						txt += "; "
+				switch s.form {
+				case "stmt":
+					switch {
+					case len(exprs) == 0:
+						txt = ""
+					case len(results) == 1 && nres > 1:
+						txt = strings.TrimSuffix(strings.Repeat("_, ", nres), ", ") + " = " + exprs[0]
+					default:
+						txt = strings.TrimSuffix(strings.Repeat("_, ", len(exprs)), ", ") + " = " + strings.Join(exprs, ", ")
 					}
-					txt += dq
-				}
-				if !isLast {
-					if txt != "" {
-						txt += "; "
+					if dq := deferredAt(dpos); dq != "" {
+						if txt != "" {
+							txt += "; "
+						}
+						txt += dq
 					}
-					txt += "break " + label
-					usedLabel = true
-				}
-				if txt == "" {
-					txt = "{}"
-				}
-			case "tail":
-				rs := s.stmt.(*ast.ReturnStmt)
-				if dq := deferredAt(dpos); dq != "" {
-					// the results are evaluated, then the deferred calls run, then the function returns
-					if len(rs.Results) != 1 || len(exprs) != nres {
-						return "", false
+					if !isLast {
+						if txt != "" {
+							txt += "; "
+						}
+						txt += "break " + label
+						usedLabel = true
 					}
-					var names []string
-					for i := range exprs {
-						rt, okT := in.typeString(sig.Results().At(i).Type(), pk, file)
-						if !okT {
+					if txt == "" {
+						txt = "{}"
+					}
+				case "tail":
+					rs := s.stmt.(*ast.ReturnStmt)
+					if dq := deferredAt(dpos); dq != "" {
+						// the results are evaluated, then the deferred calls run, then the function returns
+						if len(rs.Results) != 1 || len(exprs) != nres {
 							return "", false
 						}
-						name := fmt.Sprintf("tˑ%d%s", i, suffix)
-						txt += fmt.Sprintf("var %s %s = %s; ", name, rt, exprs[i])
-						names = append(names, name)
-					}
-					txt += dq + "; return " + strings.Join(names, ", ")
-				} else if len(rs.Results) == 1 {
-					txt = "return " + strings.Join(exprs, ", ")
-				} else {
-					if len(exprs) != 1 {
-						return "", false
-					}
-					var ops []string
-					for _, r := range rs.Results {
-						if r == ast.Expr(s.call) {
-							ops = append(ops, exprs[0])
-						} else {
-							ops = append(ops, csrcText(r))
+						var names []string
+						for i := range exprs {
+							rt, okT := in.typeString(sig.Results().At(i).Type(), pk, file)
+							if !okT {
+								return "", false
+							}
+							name := fmt.Sprintf("tˑ%d%s", i, suffix)
+							txt += fmt.Sprintf("var %s %s = %s; ", name, rt, exprs[i])
+							names = append(names, name)
 						}
-					}
-					txt = "return " + strings.Join(ops, ", ")
-				}
-			case "assign", "ifinit", "hoist":
-				if s.absorb {
-					nilness := ""
-					switch {
-					case len(results) == 1 && nres > 1:
-						txt = lhsTxt + " = " + exprs[0]
-					case len(exprs) == nres:
-						txt = lhsTxt + " = " + strings.Join(exprs, ", ")
-						if len(results) == nres {
-							nilness = errNilness(info, body, retStmt, results[s.errIdx])
+						txt += dq + "; return " + strings.Join(names, ", ")
+					} else if len(rs.Results) == 1 {
+						txt = "return " + strings.Join(exprs, ", ")
+					} else {
+						if len(exprs) != 1 {
+							return "", false
 						}
-					default:
+						var ops []string
+						for _, r := range rs.Results {
+							if r == ast.Expr(s.call) {
+								ops = append(ops, exprs[0])
+							} else {
+								ops = append(ops, csrcText(r))
+							}
+						}
+						txt = "return " + strings.Join(ops, ", ")
+					}
+				case "assign", "ifinit", "hoist":
+					if s.absorb {
+						nilness := ""
+						switch {
+						case len(results) == 1 && nres > 1:
+							txt = lhsTxt + " = " + exprs[0]
+						case len(exprs) == nres:
+							txt = lhsTxt + " = " + strings.Join(exprs, ", ")
+							if len(results) == nres {
+								nilness = errNilness(info, body, retStmt, results[s.errIdx])
+							}
+						default:
+							return "", false
+						}
+						if dq := deferredAt(dpos); dq != "" {
+							txt += "; " + dq
+						}
+						switch nilness {
+						case "nil":
+							if elseTxt != "" {
+								txt += "; " + elseTxt
+							}
+						case "nonnil":
+							if thenTxt != "" {
+								txt += "; " + thenTxt
+							}
+						default:
+							txt += "; if " + errLhs + " != nil " + orEmpty(thenTxt)
+							if elseTxt != "" {
+								txt += " else " + elseTxt
+							}
+						}
+						if !isLast {
+							txt += brk
+							usedLabel = true
+						}
+						break
+					}
+					if len(results) == 1 && nres > 1 {
+						txt = strings.Join(tmps, ", ") + " = " + exprs[0]
+					} else if len(exprs) == nres {
+						txt = strings.Join(tmps, ", ") + " = " + strings.Join(exprs, ", ")
+					} else {
 						return "", false
 					}
 					if dq := deferredAt(dpos); dq != "" {
 						txt += "; " + dq
 					}
-					switch nilness {
-					case "nil":
-						if elseTxt != "" {
-							txt += "; " + elseTxt
+					if !isLast {
+						txt += brk
+						usedLabel = true
+					}
+				case "if", "for":
+					if len(exprs) != 1 {
+						return "", false
+					}
+					e := strings.TrimSpace(exprs[0])
+					isTrue, isFalse := false, false
+					if id, isId := results[0].(*ast.Ident); len(results) == 1 && isId {
+						if c, isC := info.Uses[id].(*types.Const); isC && c.Parent() == types.Universe {
+							isTrue, isFalse = id.Name == "true", id.Name == "false"
 						}
-					case "nonnil":
-						if thenTxt != "" {
-							txt += "; " + thenTxt
-						}
+					}
+					switch {
+					case isTrue:
+						txt = thenTxt
+					case isFalse:
+						txt = elseTxt
 					default:
-						txt += "; if " + errLhs + " != nil " + orEmpty(thenTxt)
+						txt = "if " + e + " " + orEmpty(thenTxt)
 						if elseTxt != "" {
 							txt += " else " + elseTxt
 						}
+					}
+					if txt == "" {
+						txt = "{}"
 					}
 					if !isLast {
 						txt += brk
 						usedLabel = true
 					}
-					break
 				}
-				if len(results) == 1 && nres > 1 {
-					txt = strings.Join(tmps, ", ") + " = " + exprs[0]
-				} else if len(exprs) == nres {
-					txt = strings.Join(tmps, ", ") + " = " + strings.Join(exprs, ", ")
-				} else {
-					return "", false
-				}
-				if dq := deferredAt(dpos); dq != "" {
-					txt += "; " + dq
-				}
-				if !isLast {
-					txt += brk
-					usedLabel = true
-				}
-			case "if", "for":
-				if len(exprs) != 1 {
-					return "", false
-				}
-				e := strings.TrimSpace(exprs[0])
-				isTrue, isFalse := false, false
-				if id, isId := results[0].(*ast.Ident); len(results) == 1 && isId {
-					if c, isC := info.Uses[id].(*types.Const); isC && c.Parent() == types.Universe {
-						isTrue, isFalse = id.Name == "true", id.Name == "false"
-					}
-				}
-				switch {
-				case isTrue:
-					txt = thenTxt
-				case isFalse:
-					txt = elseTxt
-				default:
-					txt = "if " + e + " " + orEmpty(thenTxt)
-					if elseTxt != "" {
-						txt += " else " + elseTxt
-					}
-				}
-				if txt == "" {
-					txt = "{}"
-				}
-				if !isLast {
-					txt += brk
-					usedLabel = true
-				}
-			}
 				return txt, true
 			}
 			var txt string
